@@ -388,8 +388,76 @@ def oracle(run, deep):
                              {"text": a, "other_text": b, "after_fetch": at, "observed": repr(got), "required": repr(fresh[a]),
                               "theorem": "C01_schedule_independent (premise lexer_private)"})
                     return
+    option_engines(run, fresh)
     if not run.quick or deep:
         free_running(run, eng, fresh)
+
+
+class KeepParserOut:
+    """An engine created with the yaql.debug option makes ply rewrite yaql/language/parser.out (a tracked file of the
+    checkout under test); the file is put back byte for byte."""
+
+    def __enter__(self):
+        import os
+        import yaql.language.parser as P
+        self.path = os.path.join(os.path.dirname(os.path.abspath(P.__file__)), "parser.out")
+        self.data = open(self.path, "rb").read() if os.path.exists(self.path) else None
+        return self
+
+    def __exit__(self, *a):
+        import os
+        if self.data is None:
+            if os.path.exists(self.path):
+                os.remove(self.path)
+        else:
+            cur = open(self.path, "rb").read() if os.path.exists(self.path) else None
+            if cur != self.data:
+                with open(self.path, "wb") as f:
+                    f.write(self.data)
+
+
+def option_engines(run, fresh):
+    """Engines created with every documented option (yaql.debug included), used after engines of OTHER dialects were
+    created in the same process, sequentially and under a strict two-call alternation: same results as a fresh default engine."""
+    import contextlib
+    import io
+    import yaql
+    from yaql import legacy
+    texts = ["1 + 2", "$.a.b(c => 1)", "not a or b and c", "x in [1, 2]", "f(a => 1, 2)", "1 +", "a b", "'x' + `y`", "$.where($ > 1)"]
+    option_sets = [{"yaql.debug": True}, {"yaql.limitIterators": 10}, {"yaql.memoryQuota": 1000}, {"yaql.convertInputData": False},
+                   {"yaql.convertSetsToLists": True, "yaql.debug": True}]
+    with KeepParserOut(), contextlib.redirect_stderr(io.StringIO()):
+        for opts in option_sets:
+            eng = yaql.YaqlFactory().create(options=dict(opts))
+            # other dialects created afterwards in the same process
+            legacy.YaqlFactory().create()
+            yaql.YaqlFactory(keyword_operator=None).create()
+            f2 = yaql.YaqlFactory()
+            f2.insert_operator("and", True, "&&&", yaql.language.factory.OperatorType.BINARY_LEFT_ASSOCIATIVE, False)
+            f2.create()
+            for t in texts:
+                got = outcome(lambda: eng(t))
+                want = fresh.get(t) or outcome(lambda: engine()(t))
+                run.case(("optengine", tuple(sorted(opts)), t), nontrivial=True)
+                run.count("option_engine_parse")
+                if got != want:
+                    run.fail("violation", "an engine created with options %s parses a text differently from a fresh default engine "
+                                          "(after engines of other dialects were created in the process)" % sorted(opts),
+                             {"options": opts, "text": t, "observed": repr(got), "required": repr(want)})
+                    return
+            for a, b in (("1 + 2", "$.a.b(c => 1)"), ("not a or b and c", "1 +"), ("x in [1, 2]", "'x' + `y`")):
+                fa, fb = solo_facts(a), solo_facts(b)
+                counts = [len(fa[1]) + 1, len(fb[1]) + 1]
+                sched = [i % 2 for i in range(2 * max(counts))]
+                s = Scheduled(eng, [a, b])
+                used = s.run(sched)
+                run.case(("optengine-sched", tuple(sorted(opts)), a, b), nontrivial=True)
+                run.count("option_engine_schedule")
+                if s.problems or s.results[0] != fa[0] or s.results[1] != fb[0]:
+                    run.fail("violation", "two alternating parse calls on an engine created with options %s interfere" % sorted(opts),
+                             {"options": opts, "texts": [a, b], "schedule": used, "observed": repr(s.results),
+                              "required": repr([fa[0], fb[0]])})
+                    return
 
 
 def free_running(run, eng, fresh, seconds=None):
